@@ -303,7 +303,7 @@ theorem InvC.no_batch_unless {s : St} (h : InvC s) {t : Tid} (hm : s.mx = none â
 theorem invC_step {s s' : St} {t : Tid} (hL : InvL s) (h : InvC s) (hs : Step s t s') : InvC s' := by
   cases hs with
   | stutter => exact h
-  | wr v hr => exact invC_congr h rfl rfl rfl rfl rfl rfl rfl rfl
+  | wr v hr _ => exact invC_congr h rfl rfl rfl rfl rfl rfl rfl rfl
   | move p p' hp hc =>
     subst hp
     exact invC_move h rfl hc.task hc.prePub rfl rfl rfl rfl rfl rfl
